@@ -59,9 +59,28 @@ def rsimp(x):
     return x
 
 def _isp(x): return getattr(x, '_vf_poly', False)
+def negof(t):
+    """u if t is syntactically -u (so that sign bookkeeping such as (-x/d)*(-1) normalises to x/d), else None"""
+    if not is_sym(t) or not z3.is_app(t): return None
+    k = t.decl().kind()
+    if k == z3.Z3_OP_UMINUS: return t.arg(0)
+    if k == z3.Z3_OP_MUL and t.num_args() == 2 and z3.is_rational_value(t.arg(0)) and frac(t.arg(0)) == -1: return t.arg(1)
+    return None
+def rneg(a):
+    if is_conc_real(a): return RV(-frac(a))
+    u = negof(a)
+    return u if u is not None else -a
 def rmul(a, b):
     if _isp(a) or _isp(b): return a * b if _isp(a) else b * a
     if is_conc_real(a) and is_conc_real(b): return RV(frac(a) * frac(b))
+    if is_conc_real(a) and frac(a) == 1: return b
+    if is_conc_real(b) and frac(b) == 1: return a
+    if is_conc_real(a) and frac(a) == -1: return rneg(b)
+    if is_conc_real(b) and frac(b) == -1: return rneg(a)
+    na, nb = negof(a), negof(b)
+    if na is not None and nb is not None: return na * nb
+    if na is not None: return -(na * b)
+    if nb is not None: return -(a * nb)
     return a * b
 def radd(a, b):
     if _isp(a) or _isp(b): return a + b if _isp(a) else b + a
@@ -80,6 +99,8 @@ def rdiv(a, b):
         if fb == 0: raise Unsupported('division by literal zero')
         if is_conc_real(a): return RV(frac(a) / fb)
         return a * RV(1 / fb)
+    na = negof(a)
+    if na is not None: return -(na / b)
     return a / b
 
 class Path:
@@ -283,7 +304,7 @@ class Exec:
                     a = s.val(env, I.a)
                     if isinstance(a, tuple): env[I.dest] = ('nonfinite', -a[1])
                     elif _isp(a): env[I.dest] = -a
-                    else: env[I.dest] = RV(-frac(a)) if is_conc_real(a) else -a
+                    else: env[I.dest] = rneg(a)
                 elif op in BINOPS:
                     env[I.dest] = s.intop(I, s.val(env, I.a), s.val(env, I.b))
                 elif op in CASTS:
